@@ -210,6 +210,36 @@ theorem Inv.finished_le {g : Graph} {results : List Key} {s : State α} (h : Inv
     s.finished.length ≤ s.dependencies.length :=
   nodup_length_le_of_keys s.dependencies s.finished h.finishedNodup (fun k hk => (h.finishedTask k hk).1)
 
+/-- every state the loop can be in (between iterations: outcome `starved`; at the end: `done`; at a failure:
+`failed`) satisfies the system invariant, for every adversary -/
+theorem reach_inv {cfg : Cfg} (P : Params α) {den : Key → α} (hden : IsDen cfg.g P den)
+    (hnw : 1 ≤ cfg.nw) (hcs : cfg.cs = -1 ∨ 1 ≤ cfg.cs)
+    (rank : Key → Nat) (hrank : ∀ k deps d, cfg.g.get? k = some (.task deps) → d ∈ deps → rank d < rank k)
+    {st0 : State α} (hs : StartOK cfg den st0) {choices : List Nat} {s' : Sys α} {o : Outcome}
+    (hrun : mainLoop cfg P choices (sys0 st0) = .ok (s', o)) :
+    (∃ rest, BatchInv cfg den rest s') ∧ s'.st.dependencies = st0.dependencies ∧
+    (∀ k, k ∈ s'.st.finished → P.fails k = false) ∧
+    (o = .done → SysInv cfg den s' ∧ loopCond s'.st = false) ∧
+    (∀ k, o = .failed k → P.fails k = true ∧ ∃ rest', BatchInv cfg den rest' s' ∧ k ∈ rest'.map (·.1)) := by
+  rcases mainLoop_spec P hden hnw hcs rank hrank choices (sys0 st0) hs.sysInv with
+    hbad | ⟨s1, o1, hok, hdone, hstarved, hfailed, _, hdeps, hfok⟩
+  · rw [hbad] at hrun; cases hrun
+  · rw [hok] at hrun
+    cases hrun
+    refine ⟨?_, hdeps, ?_, hdone, hfailed⟩
+    · cases o with
+      | done => exact ⟨[], (hdone rfl).1⟩
+      | starved => exact ⟨[], (hstarved rfl).1⟩
+      | failed k =>
+        obtain ⟨_, rest', hB, _⟩ := hfailed k rfl
+        exact ⟨rest', hB⟩
+    · intro k hk
+      rcases hfok k hk with h1 | h1
+      · have : (sys0 st0).st.finished = [] := hs.finished
+        rw [this] at h1
+        cases h1
+      · exact h1
+
 /-! ### the `get_async` wrapper -/
 
 theorem getAsync_eq {cfg : Cfg} {P : Params α} {st0 : State α} (hst : startState cfg P = .ok st0)
